@@ -8,10 +8,27 @@ EXTENDS PushRuleset, Json, IOUtils, TLC
 
 Rec == ndJsonDeserialize(IOEnv.TRACE)
 Kinds == {"override", "underride", "content", "room", "sender"}
-VARIABLES rules, l
-vars == <<rules, l>>
+VARIABLES rules, l, plain
+vars == <<rules, l, plain>>
 
-Init == l = 1 /\ rules = [k \in Kinds |-> <<>>]
+Init == l = 1 /\ rules = [k \in Kinds |-> <<>>] /\ plain = FALSE
+
+\* ---- evaluation after edits (C12 on top of C13): the rule selected for a fixed probe event is the first enabled matching rule
+\* in the order override, content, room, sender, underride of the lists as they are now.  The probe is built so that a rule
+\* matches iff its payload is 1 (conditional and content rules) or its id is the probe's room / sender (simple rules); only
+\* walks that started from the empty ruleset are judged (no server-default rules, whose conditions are not modelled here).
+ProbeRoom == <<33, 97, 58, 115, 46, 99, 111>>       \* !a:s.co
+ProbeSender == <<64, 97, 58, 115, 46, 99, 111>>     \* @a:s.co
+MatchesProbe(k, r) == CASE k = "room" -> r.id = ProbeRoom [] k = "sender" -> r.id = ProbeSender [] OTHER -> r.payload = 1
+EvalOrder == <<"override", "content", "room", "sender", "underride">>
+RECURSIVE FirstIn(_, _, _)
+FirstIn(k, s, i) == IF i > Len(s) THEN <<>> ELSE IF s[i].enabled /\ MatchesProbe(k, s[i]) THEN s[i].id ELSE FirstIn(k, s, i + 1)
+RECURSIVE FirstMatch(_, _)
+FirstMatch(rs, j) == IF j > Len(EvalOrder) THEN [kind |-> "none", id |-> <<0>>]
+                     ELSE LET k == EvalOrder[j]  hit == FirstIn(k, rs[k], 1) IN
+                          IF hit # <<>> \/ (\E i \in 1..Len(rs[k]) : rs[k][i].enabled /\ MatchesProbe(k, rs[k][i]) /\ rs[k][i].id = <<>>)
+                          THEN [kind |-> k, id |-> hit] ELSE FirstMatch(rs, j + 1)
+MatchOk(r, rs, pl) == (~pl) \/ (r.match.kind = FirstMatch(rs, 1).kind /\ r.match.id = FirstMatch(rs, 1).id)
 
 \* simple (room / sender) rules have no payload: it is projected to 0
 Norm(simple, q) == IF simple THEN [i \in 1..Len(q) |-> [q[i] EXCEPT !.payload = 0]] ELSE q
@@ -26,12 +43,15 @@ Explained(r, s) ==
 
 StepReset == /\ l <= Len(Rec) /\ Rec[l].ev = "reset"
              /\ rules' = [k \in Kinds |-> Rec[l][k]]
+             /\ plain' = Rec[l].plain
+             /\ (IF MatchOk(Rec[l], [k \in Kinds |-> Rec[l][k]], Rec[l].plain) THEN TRUE ELSE PrintT(<<"MISMATCH", l>>))
              /\ l' = l + 1
 
 StepCall == /\ l <= Len(Rec) /\ Rec[l].ev = "call"
             /\ LET r == Rec[l] IN
-               /\ IF Explained(r, rules[r.kind]) THEN TRUE ELSE PrintT(<<"MISMATCH", l>>)
+               /\ IF Explained(r, rules[r.kind]) /\ MatchOk(r, [rules EXCEPT ![r.kind] = r.post], plain) THEN TRUE ELSE PrintT(<<"MISMATCH", l>>)
                /\ rules' = [rules EXCEPT ![r.kind] = r.post]
+               /\ plain' = plain
             /\ l' = l + 1
 
 Next == StepReset \/ StepCall
